@@ -107,7 +107,9 @@ impl SendRequest<RequestMessage<Vec<u8>>> for FinalUp {
         let fut = async move {
             let msg = req.to_message().expect("request");
             *seen.lock().unwrap() = Some((msg.opt().is_some_and(|o| o.dnssec_ok()), msg.header().cd()));
-            let r = staged.lock().unwrap().take().expect("a staged response");
+            // (The wrapper may ask more than once - after a cancellation,
+            // say -: the same answer every time.)
+            let r = staged.lock().unwrap().clone().expect("a staged response");
             let mut bytes = to_message(&msg, &r);
             // An upstream's own AD bit means nothing to a validator.
             if sim::chance("final_up.lying_ad", 1, 2) {
@@ -561,6 +563,7 @@ async fn run(_tier: Tier) {
                     Harm::DenyExisting(0),
                     Harm::DenyExisting(1),
                     Harm::DenyExisting(2),
+                    Harm::DenyExisting(3),
                 ],
             )
         } else {
@@ -608,7 +611,7 @@ async fn run(_tier: Tier) {
             match w.forged_denial_of_existing(qname, qtype, mode) {
                 Some(f) => {
                     r = f;
-                    sim::stat(["fault.nodata_with_the_names_own_nsec", "fault.nxdomain_with_the_names_own_nsec", "fault.nodata_at_child_apex_with_parent_side_nsec"][mode as usize]);
+                    sim::stat(["fault.nodata_with_the_names_own_nsec", "fault.nxdomain_with_the_names_own_nsec", "fault.nodata_at_child_apex_with_parent_side_nsec", "fault.nxdomain_with_the_nsec3_that_ends_at_the_name"][mode as usize]);
                     true
                 }
                 None => false,
@@ -724,7 +727,27 @@ async fn run(_tier: Tier) {
             creq.header_mut().set_ad(caller_flags.1);
             creq.header_mut().set_cd(caller_flags.2);
             let mut g = SendRequest::send_request(&wrapper, creq);
-            let out = g.get_response().await;
+            // The caller may drop a pending get_response() and ask again
+            // (the trait documents it as cancel safe): same request, same
+            // verdict.
+            let out = if sim::chance("wrapper.cancel", 1, 4) {
+                let mut tries = 0;
+                loop {
+                    let patience = Duration::from_millis(sim::draw("wrapper.cancel_after_ms", 4));
+                    match tokio::time::timeout(patience, g.get_response()).await {
+                        Ok(r) => break r,
+                        Err(_) => {
+                            sim::stat("fault.wrapper_get_response_cancelled");
+                            tries += 1;
+                            if tries >= 3 {
+                                break g.get_response().await;
+                            }
+                        }
+                    }
+                }
+            } else {
+                g.get_response().await
+            };
             // Translate into what validate_msg would have said, as far as
             // the wrapper's output shows it.
             let translated = match &out {
